@@ -202,4 +202,4 @@ PROP = Prop(
                     min_nontrivial=100, doc="roc(): rates, order, support, counts, views")],
 )
 
-RULE_EXTRA = ('nb_points as NumPy integers incl. np.uint8(255) / np.int8(127); clause long_curves; read-only threshold arrays; float32/float16 scores; +-inf user thresholds; the returned curve is edited in place and roc() called again.')
+RULE_EXTRA = ('nb_points as NumPy integers incl. np.uint8(255) / np.int8(127); clause long_curves; read-only threshold arrays; float32/float16 scores; +-inf user thresholds; the returned curve is edited in place and roc() called again. Results must not share memory with the threshold array of the caller.')
